@@ -502,7 +502,7 @@ class DHTCommunity(Community):
             msg = "No nodes found for storing the key-value pairs"
             raise DHTError(msg)
 
-        values = values[:MAX_VALUES_IN_STORE]
+        values = [value for value in values if len(value) <= MAX_ENTRY_SIZE][:MAX_VALUES_IN_STORE]
 
         # Check if we also need to store this key-value pair
         largest_distance = max([distance(node.id, key) for node in nodes])
